@@ -100,3 +100,12 @@ func init() {
 	registerFixture(fixtureCheck{Group: "tab", Pkg: "tab/bad", Run: tab, Want: []string{"Apply:switch(Op)#1", "Op.String:switch(Op)#1"}})
 	registerFixture(fixtureCheck{Group: "tab", Pkg: "tab/good", Run: tab})
 }
+
+func init() {
+	loop := func(c *Ctx, r *Result, key string) {
+		g, fs := c.fixGraph(key)
+		runLOOP(c, r, "LOOP", fixFuncs(c, g, fs), nil)
+	}
+	registerFixture(fixtureCheck{Group: "loop", Pkg: "loop/bad", Run: loop, Want: []string{"loop/bad.Scale:", "loop/bad.Skip:", "loop/bad.Wander:"}})
+	registerFixture(fixtureCheck{Group: "loop", Pkg: "loop/good", Run: loop})
+}
